@@ -161,6 +161,73 @@ def _max_total(A, b):
     return float(res.x.sum())
 
 
+def _newton(Aa, ba, mua, y, lnN, maxit, xtol, bsum):
+    """Gordon-McBride iteration from (y = ln n, lnN).  Returns (y, lnN, pi, converged, its)."""
+    na, nc = Aa.shape
+    y = np.array(y, dtype=float)
+    lnN = float(lnN)
+    pi = np.zeros(nc)
+    for it in range(1, maxit + 1):
+        n = np.exp(y)
+        N = float(np.exp(lnN))
+        mu = mua + y - lnN
+        An = Aa * n[:, None]
+        col = An.sum(0)
+        M = np.empty((nc + 1, nc + 1))
+        M[:nc, :nc] = Aa.T @ An
+        M[:nc, nc] = col
+        M[nc, :nc] = col
+        M[nc, nc] = n.sum() - N
+        r = np.empty(nc + 1)
+        r[:nc] = ba - col + An.T @ mu
+        r[nc] = N - n.sum() + n @ mu
+        if not (np.all(np.isfinite(M)) and np.all(np.isfinite(r))):
+            return y, lnN, pi, False, it
+        # symmetric scaling improves conditioning when amounts differ by many decades
+        d = np.sqrt(np.maximum(np.abs(np.diag(M)), 1e-300))
+        d[nc] = max(d[nc], np.sqrt(N))
+        Ms = M / d[:, None] / d[None, :]
+        try:
+            sol = np.linalg.solve(Ms, r / d) / d
+            if not np.all(np.isfinite(sol)):
+                raise np.linalg.LinAlgError
+        except np.linalg.LinAlgError:
+            sol = np.linalg.lstsq(Ms, r / d, rcond=None)[0] / d
+        if not np.all(np.isfinite(sol)):
+            return y, lnN, pi, False, it
+        pi = sol[:nc]
+        dlnN = float(sol[nc])
+        dy = Aa @ pi + dlnN - mu
+        # step control (RP-1311 eqs. 3.1-3.3)
+        lnx = y - lnN
+        major = (lnx > -18.420681) | (dy > 0)
+        m1 = max(5.0 * abs(dlnN), float(np.max(np.abs(dy[major]))) if major.any() else 0.0)
+        lam = 1.0
+        if m1 > 2.0:
+            lam = 2.0 / m1
+        minor_up = (lnx <= -18.420681) & (dy >= 0)
+        if minor_up.any():
+            den = dy[minor_up] - dlnN
+            with np.errstate(divide='ignore', invalid='ignore'):
+                l2 = np.abs((-lnx[minor_up] - 9.2103404) / den)
+            l2 = l2[np.isfinite(l2)]
+            if l2.size:
+                lam = min(lam, float(l2.min()))
+        # decreasing trace species may fall freely but not overflow the exponent range
+        step = lam * dy
+        step = np.where(major, step, np.maximum(step, -50.0))
+        y = np.maximum(y + step, -2000.0)
+        lnN = lnN + lam * dlnN
+        if lam == 1.0:
+            nn = np.exp(y)
+            tot = nn.sum()
+            if (np.max(np.abs(dy) * nn) / tot < xtol and abs(dlnN) < xtol * 10
+                    and abs(np.exp(lnN) - tot) < 1e-12 * tot
+                    and np.max(np.abs(nn @ Aa - ba)) < 1e-12 * bsum):
+                return y, lnN, pi, True, it
+    return y, lnN, pi, False, maxit
+
+
 class Result:
     __slots__ = ('n', 'pi', 'pi_cols', 'active', 'forced_zero', 'G', 'lower_bound', 'gap',
                  'balance', 'iterations', 'converged', 'reason', 'N', 'ln_s', 'n_max')
@@ -170,7 +237,7 @@ class Result:
                     else getattr(self, k)) for k in self.__slots__}
 
 
-def solve(A, b, mu0, maxit=3000, xtol=1e-13):
+def solve(A, b, mu0, maxit=6000, xtol=1e-13):
     """Minimise G over {A^T n = b, n >= 0}.
 
     A   (ns, ne) integer formula matrix, b (ne,) element totals (consistent: b = A^T n_feed),
@@ -230,67 +297,36 @@ def solve(A, b, mu0, maxit=3000, xtol=1e-13):
         return R
     R.n_max = n_max
 
-    # ---- Newton iteration in y = ln n, lnN
-    y = np.log(n0[active])
-    lnN = float(np.log(np.exp(y).sum()))
-    pi = np.zeros(nc)
-    ok_iter = False
-    for it in range(1, maxit + 1):
-        n = np.exp(y)
-        N = float(np.exp(lnN))
-        mu = mua + y - lnN
-        An = Aa * n[:, None]
-        col = An.sum(0)
-        M = np.empty((nc + 1, nc + 1))
-        M[:nc, :nc] = Aa.T @ An
-        M[:nc, nc] = col
-        M[nc, :nc] = col
-        M[nc, nc] = n.sum() - N
-        r = np.empty(nc + 1)
-        r[:nc] = ba - col + An.T @ mu
-        r[nc] = N - n.sum() + n @ mu
-        # symmetric scaling improves conditioning when amounts differ by many decades
-        d = np.sqrt(np.maximum(np.abs(np.diag(M)), 1e-300))
-        d[nc] = max(d[nc], np.sqrt(N))
-        Ms = M / d[:, None] / d[None, :]
-        try:
-            sol = np.linalg.solve(Ms, r / d) / d
-            if not np.all(np.isfinite(sol)):
-                raise np.linalg.LinAlgError
-        except np.linalg.LinAlgError:
-            sol = np.linalg.lstsq(Ms, r / d, rcond=None)[0] / d
-        pi = sol[:nc]
-        dlnN = float(sol[nc])
-        dy = Aa @ pi + dlnN - mu
-        # step control (RP-1311 eqs. 3.1-3.3)
-        lnx = y - lnN
-        major = (lnx > -18.420681) | (dy > 0)
-        m1 = max(5.0 * abs(dlnN), float(np.max(np.abs(dy[major]))) if major.any() else 0.0)
-        lam = 1.0
-        if m1 > 2.0:
-            lam = 2.0 / m1
-        minor_up = (lnx <= -18.420681) & (dy >= 0)
-        if minor_up.any():
-            den = dy[minor_up] - dlnN
-            with np.errstate(divide='ignore', invalid='ignore'):
-                l2 = np.abs((-lnx[minor_up] - 9.2103404) / den)
-            l2 = l2[np.isfinite(l2)]
-            if l2.size:
-                lam = min(lam, float(l2.min()))
-        # decreasing trace species may fall freely but not overflow the exponent range
-        step = lam * dy
-        step = np.where(major, step, np.maximum(step, -50.0))
-        y = np.maximum(y + step, -2000.0)
-        lnN = lnN + lam * dlnN
-        R.iterations = it
-        if lam == 1.0:
-            nn = np.exp(y)
-            tot = nn.sum()
-            if (np.max(np.abs(dy) * nn) / tot < xtol and abs(dlnN) < xtol * 10
-                    and abs(np.exp(lnN) - tot) < 1e-12 * tot
-                    and np.max(np.abs(nn @ Aa - ba)) < 1e-12 * bsum):
-                ok_iter = True
-                break
+    # ---- gauge: mu0_i -> mu0_i - A_i.pi0 leaves the minimiser unchanged (pi -> pi - pi0)
+    pi0 = np.linalg.lstsq(Aa, mua, rcond=None)[0]
+    mug = mua - Aa @ pi0
+    y0 = np.log(n0[active])
+    lnN0 = float(np.log(np.exp(y0).sum()))
+    y, lnN, pi, ok_iter, its = _newton(Aa, ba, mug, y0, lnN0, 150, xtol, bsum)
+    R.iterations = its
+    if not ok_iter:
+        # continuation in the "inverse temperature" tau: mu(tau) = tau * mu, tau: 0 -> 1
+        y, lnN = y0, lnN0
+        tau, dtau, ok_iter = 0.0, 0.25, False
+        yc, lc, pc, okc, k = _newton(Aa, ba, 0.0 * mug, y, lnN, 400, xtol, bsum)
+        R.iterations += k
+        if okc:
+            y, lnN = yc, lc
+            while R.iterations < maxit:
+                t2 = min(1.0, tau + dtau)
+                yc, lc, pc, okc, k = _newton(Aa, ba, t2 * mug, y, lnN, 120, xtol, bsum)
+                R.iterations += k
+                if okc:
+                    y, lnN, pi, tau = yc, lc, pc, t2
+                    dtau = min(dtau * 2.0, 0.5)
+                    if tau >= 1.0:
+                        ok_iter = True
+                        break
+                else:
+                    dtau *= 0.25
+                    if dtau < 1e-6:
+                        break
+    pi = pi + pi0
     # ---- final state, certificate
     # trace species: set exactly to their stationary value n_i = N exp(A_i.pi - mu0_i)
     N = float(np.exp(lnN))
